@@ -72,8 +72,23 @@ def generate(seed: int, tier: str, idx: int) -> dict:
     s = stream(seed, "c16")
     if s.chance(0.25):
         return {"plan": {"kind": "utility", "seed": s.randint(0, 2**31)}}
-    sc = gen.gen_scenario(seed, PROFILE)
-    sc["release"]["use_lonlat"] = s.chance(0.8)
+    wide = stream(seed, "c16.wide").chance(0.04)
+    if wide:
+        # a grid many hundreds of cells across (NorKyst800 is 2602 x 902), releases far from its middle
+        sc = gen.gen_scenario(seed, dict(PROFILE, grid_i=(760, 900), grid_j=(24, 30), p_subgrid=0.0, p_land=0.0, N=(1, 1),
+                                         nsteps=(2, 4), p_multifile=0.0, p_big_grid=0.0, rows=(3, 5), p_continuous=0.0))
+        if sc["grid"]["lonlat"]["kind"] == "stereo":
+            sc["grid"]["lonlat"]["dxs"] = 0.8
+        xlo, xhi, ylo, yhi = truth.valid_region(sc)
+        rows_ = sc["release"]["rows"]
+        rows_[0]["X"] = round(xlo + s.uniform(3, 40), 3)
+        rows_[-1]["X"] = round(xhi - s.uniform(3, 40), 3)
+        for r in (rows_[0], rows_[-1]):
+            r["Y"] = round(s.uniform(ylo + 2, yhi - 2), 3)
+            r["Z"] = 0.0
+    else:
+        sc = gen.gen_scenario(seed, PROFILE)
+    sc["release"]["use_lonlat"] = True if wide else s.chance(0.8)
     if s.chance(0.4):
         # one row exactly in the middle of the loaded array (where an iterative solver would start), the others elsewhere
         i0, i1, j0, j1 = truth.subgrid(sc)
@@ -209,6 +224,8 @@ def execute_run(sc) -> Result:
                 res.add(Violation("C16.roundtrip", None, f"ll2xy(xy2ll({X[q]:.4f},{Y[q]:.4f}))",
                                   f"({X2[q]:.6f},{Y2[q]:.6f}) residual {resid[q]:.3g} deg^2", "residual < 1e-7 deg^2"))
             res.probes["roundtrip"] += 1
+            if sc["grid"]["imax0"] > 700:
+                res.probes["grid_more_than_700_cells_wide"] += 1
             if sc["plan"].get("lattice"):
                 res.probes["release_on_a_lonlat_lattice"] += 1
             if sc["plan"].get("centre_row") and sc["release"].get("use_lonlat"):
